@@ -71,12 +71,66 @@ func MethodName(c *ssa.CallCommon) string {
 		return c.Method.Name()
 	}
 	if f := StaticCallee(c); f != nil {
-		return f.Name()
+		return origin(f).Name() // instantiations of generics are named "F[T…]"
 	}
 	if b, ok := c.Value.(*ssa.Builtin); ok {
 		return b.Name()
 	}
 	return ""
+}
+
+// DeepRoots describes what a value depends on, looking through calls of pure helper
+// functions (conversions, math.*, strconv.*) into their arguments.
+func DeepRoots(v ssa.Value) []string {
+	set := map[string]bool{}
+	seen := map[ssa.Value]bool{}
+	var walk func(v ssa.Value, d int)
+	walk = func(v ssa.Value, d int) {
+		if v == nil || seen[v] || d > 10 {
+			return
+		}
+		seen[v] = true
+		switch x := v.(type) {
+		case *ssa.Call:
+			n := CalleeName(x.Common())
+			set["call:"+n] = true
+			if strings.HasPrefix(n, "math.") || strings.HasPrefix(n, "strconv.") || strings.HasPrefix(n, "builtin.") {
+				for _, a := range x.Call.Args {
+					walk(a, d+1)
+				}
+			}
+			return
+		case *ssa.Extract:
+			walk(x.Tuple, d+1)
+			return
+		case *ssa.UnOp:
+			if ap := AccessPath(x); ap != "" {
+				set["load:"+ap] = true
+			}
+			if al, ok := x.X.(*ssa.Alloc); ok {
+				for _, s := range StoresTo(al) {
+					walk(s, d+1)
+				}
+				return
+			}
+		case *ssa.Const:
+			return
+		}
+		if in, ok := v.(ssa.Instruction); ok {
+			for _, op := range in.Operands(nil) {
+				if op != nil && *op != nil {
+					walk(*op, d+1)
+				}
+			}
+		}
+	}
+	walk(v, 0)
+	var out []string
+	for k := range set {
+		out = append(out, k)
+	}
+	sort.Strings(out)
+	return out
 }
 
 // CallArgs returns the arguments excluding the receiver for static method calls, so
@@ -561,6 +615,14 @@ func classifyErrValue(v ssa.Value, at *ssa.BasicBlock, depth int) int {
 		if isErrorCtor(x.Common()) {
 			return ExitFailure
 		}
+		// github.com/pkg/errors.Wrap* return nil exactly when their argument is nil
+		switch CalleeName(x.Common()) {
+		case "github.com/pkg/errors.Wrap", "github.com/pkg/errors.Wrapf", "github.com/pkg/errors.WithMessage",
+			"github.com/pkg/errors.WithMessagef", "github.com/pkg/errors.WithStack":
+			if depth < 3 && len(x.Call.Args) > 0 {
+				return classifyErrValue(x.Call.Args[0], x.Block(), depth+1)
+			}
+		}
 	case *ssa.Phi:
 		if depth > 3 {
 			return ExitMaybe
@@ -594,6 +656,8 @@ func classifyErrValue(v ssa.Value, at *ssa.BasicBlock, depth int) int {
 
 var errorCtors = map[string]bool{
 	"errors.New":                                     true,
+	"github.com/pkg/errors.New":                      true,
+	"github.com/pkg/errors.Errorf":                   true,
 	"fmt.Errorf":                                     true,
 	"github.com/0chain/common/core/common.NewError":  true,
 	"github.com/0chain/common/core/common.NewErrorf": true,
